@@ -1,37 +1,82 @@
 from txcommon import *
+import copy
 
 
 class C12(TxCheck):
     ID = "C12"
     MODE = "c12"
     LEVEL = "proof"
-    MODEL_CODES = [11, 12, 13, 14, 17, 902]
+    # 25 instead of 12: the returned expiry may be the instant asked for or the
+    # stored, second-truncated one (both denote the granted lease; no theorem
+    # of Properties/C12.v depends on which)
+    MODEL_CODES = [11, 25, 13, 14, 17, 902]
     N_QUICK = 100
     N_THOROUGH = 4000
     KINDS = ["balance_differs_from_ledger", "spendable_set_differs_from_ledger", "lease_list_differs_from_ledger", "store_error"]
-    RULE = ("C01's generator with lease events interleaved (LockOutput/UnlockOutput by ids 1..3 on credited, spent, unknown outpoints; "
-            "durations 0.5/1/1.5/2/60 s; mock clock (hook VerifSetClock) advanced by 1,250,499,500,501,999,1000,1001,... ms so that "
-            "queries fall just before/at/after the stored (second-truncated) expiry; DeleteExpiredLockedOutputs), half of the histories "
-            "with a close-and-reopen of the database file at a random point. After every event: lock result class and returned expiry, "
-            "balances, spendable set, ListLockedOutputs vs model and vs ledger. non-trivial = at least one successful lease and one clock advance; distinct by input")
+    PARTIAL_CLAUSES = ["leases survive restart: the restart is an event whose model and ledger steps are the identity "
+                       "(C12_restart_step_is_identity_partial); that the real store keeps no lease state in memory is exercised "
+                       "(close-and-reopen / wallet stop-and-start in the middle of leases, all observables compared afterwards), not proved"]
+    RULE = ("C01's generator with lease events interleaved (LockOutput/UnlockOutput by ids 1..3 on credited, spent, unknown outpoints, "
+            "half of them on an outpoint an earlier lease asked for (contention); the three ids are full-width 32-byte identifiers named by "
+            "the case: independent, sharing a prefix / suffix of 1..31 bytes, differing in one byte or one bit, differing in the first / last "
+            "byte only; durations 0.5/1/1.5/2/60 s; mock clock (hook VerifSetClock) advanced by 1,250,499,500,501,999,1000,1001,... ms so "
+            "that queries fall just before/at/after the stored (second-truncated) expiry; DeleteExpiredLockedOutputs; 'restart' events "
+            "(close and reopen the database file), a fifth of them right after a lease). A third of the cases run on a real wallet.Wallet: "
+            "lease/release through Wallet.LeaseOutput/ReleaseOutput, restart = stop wallet, close file, reopen, start, and "
+            "Wallet.ListLeasedOutputs must equal the store's list restricted to transactions the wallet knows (with the outputs' values). "
+            "After every event: lock result class and returned expiry (the instant asked for or the stored one), balances, spendable set, "
+            "ListLockedOutputs (identifiers compared on all 32 bytes) vs model and vs ledger; after a restart the lease list must equal the "
+            "list before it. non-trivial = at least one successful lease and one clock advance; distinct by input")
 
     def nontrivial(self, c):
         evs = c["in"]["events"]
         return any(e["k"] == "lease" for e in evs) and any(e["k"] == "tick" for e in evs)
 
+    def render_cases(self, cases):
+        # a restart is the identity step of the model and of the ledger: it is
+        # rendered as [Tick 0] (InvLease.restart_step_is_identity), so that
+        # everything observed after it is compared with the unchanged state
+        cs = []
+        for c in cases:
+            if any(e["k"] == "restart" for e in c["in"]["events"]):
+                c = dict(c, **{"in": dict(c["in"], events=[dict(k="tick", dt=0) if e["k"] == "restart" else e
+                                                           for e in c["in"]["events"]])})
+            cs.append(c)
+        return super().render_cases(cs)
+
     def extra_coverage(self, cases):
-        n = dict(lease_ok=0, lease_already=0, lease_unknown=0, release_notallowed=0, reopen=0)
+        n = dict(lease_ok=0, lease_already=0, lease_unknown=0, release_notallowed=0, reopen=0, restart_events=0,
+                 restarts_with_live_lease=0, wallet_api_cases=0, wallet_lease_lists_compared=0,
+                 contention_between_ids_sharing_8_bytes_or_more=0)
         for c in cases:
             if c["in"].get("reopen"):
                 n["reopen"] += 1
+            if c["in"].get("wallet_lease"):
+                n["wallet_api_cases"] += 1
+            ids = [bytes.fromhex(x) for x in c["in"].get("lockids") or []]
+            owner = {}
             for e, o in zip(c["in"]["events"], c["obs"]):
                 l = o["out"].get("lock", "")
+                if e["k"] == "restart":
+                    n["restart_events"] += 1
+                    n["restarts_with_live_lease"] += bool(o["locked"])
+                if o.get("wleased") is not None:
+                    n["wallet_lease_lists_compared"] += 1
                 if e["k"] == "lease":
                     n["lease_ok"] += l == "ok"
                     n["lease_already"] += l == "already"
                     n["lease_unknown"] += l == "unknown"
                 if e["k"] == "release":
                     n["release_notallowed"] += l == "notallowed"
+                if l in ("already", "notallowed") and ids:
+                    cur = owner.get(tuple(e["op"]))
+                    if cur and cur != e["id"] and max(cur, e["id"]) <= len(ids):
+                        a, b = ids[cur - 1], ids[e["id"] - 1]
+                        pre = next((i for i in range(32) if a[i] != b[i]), 32)
+                        suf = next((i for i in range(32) if a[31 - i] != b[31 - i]), 32)
+                        n["contention_between_ids_sharing_8_bytes_or_more"] += max(pre, suf) >= 8
+                for lk in o["locked"]:
+                    owner[(lk[0], lk[1])] = lk[2]
         d = super().extra_coverage(cases)
         d.update(lease_outcomes=n)
         return d
